@@ -16,11 +16,40 @@ static void print_list (PList *l) {
 	printf ("]\n");
 }
 
+/* one-shot allocation failure (ops insf / lappf / lpref): the next p_malloc of the library returns NULL */
+static int fail_next;
+static ppointer f_malloc (psize n) { if (fail_next) { fail_next = 0; return NULL; } return malloc (n); }
+static ppointer f_realloc (ppointer p, psize n) { return realloc (p, n); }
+static void f_free (ppointer p) { free (p); }
+/* the library reports the failed allocation with a P_ERROR line on stdout: not part of the protocol */
+#include <unistd.h>
+#include <fcntl.h>
+static int saved_out = -1;
+static void mute (void) { fflush (stdout); saved_out = dup (1); int nul = open ("/dev/null", O_WRONLY); dup2 (nul, 1); close (nul); fail_next = 1; }
+static void unmute (void) { fail_next = 0; fflush (stdout); dup2 (saved_out, 1); close (saved_out); saved_out = -1; }
+
+/* compare function for lookup_by_value (op lbvf): deliberately not symmetric — the stored value (first argument) is
+ * "equal" to the asked one (second argument) when its bits above the low 8 are the asked word; any non-zero result of
+ * either sign means "different" */
+static pint value_cmp (pconstpointer stored, pconstpointer asked) {
+	uint64_t s = (uint64_t) (uintptr_t) stored >> 8, a = (uint64_t) (uintptr_t) asked;
+	return s == a ? 0 : s < a ? -5 : 7;
+}
+
+/* p_list_foreach callback: records the data in call order */
+static uint64_t seen[4096]; static int nseen; static int cookie;
+static void each_cb (ppointer data, ppointer user) {
+	if (user != &cookie) { puts ("DATA-MISMATCH"); exit (4); }
+	if (nseen < 4096) seen[nseen++] = (uint64_t) (uintptr_t) data;
+}
+
 int main (void) {
 	char line[256], op[32];
 	unsigned long long a, b;
-	p_libsys_init ();
+	PMemVTable vt = { f_malloc, f_realloc, f_free };
+	p_libsys_init_full (&vt);
 	PHashTable *t = p_hash_table_new ();
+	PHashTable *t2 = p_hash_table_new ();      /* a second table (ops ins2 / rem2 / get2 / keys2 / vals2): tables do not share state */
 	PList *l = NULL;
 	while (fgets (line, sizeof line, stdin)) {
 		a = b = 0;
@@ -43,11 +72,54 @@ int main (void) {
 		else if (!strcmp (op, "lrev") && n == 1) { l = p_list_reverse (l); print_list (l); }
 		else if (!strcmp (op, "llast") && n == 1) { PList *x = p_list_last (l); if (x) printf ("%" PRIu64 "\n", (uint64_t) (uintptr_t) x->data); else puts ("nf"); }
 		else if (!strcmp (op, "llen") && n == 1) { printf ("%zu\n", (size_t) p_list_length (l)); }
-		else if (!strcmp (op, "reset") && n == 1) { p_hash_table_free (t); t = p_hash_table_new (); p_list_free (l); l = NULL; puts ("ok"); }
+		else if (!strcmp (op, "insf") && n == 3) { mute (); p_hash_table_insert (t, (ppointer) (uintptr_t) a, (ppointer) (uintptr_t) b); unmute (); puts ("ok"); }
+		else if (!strcmp (op, "lappf") && n == 2) { mute (); l = p_list_append (l, (ppointer) (uintptr_t) a); unmute (); print_list (l); }
+		else if (!strcmp (op, "lpref") && n == 2) { mute (); l = p_list_prepend (l, (ppointer) (uintptr_t) a); unmute (); print_list (l); }
+		else if (!strcmp (op, "lbvf") && n == 2) { PList *k = p_hash_table_lookup_by_value (t, (pconstpointer) (uintptr_t) a, value_cmp); print_list (k); p_list_free (k); }
+		else if (!strcmp (op, "leach") && n == 1) {
+			nseen = 0;
+			p_list_foreach (l, each_cb, &cookie);
+			p_list_foreach (l, NULL, &cookie);
+			printf ("[");
+			for (int i = 0; i < nseen; ++i) printf ("%s%" PRIu64, i ? " " : "", seen[i]);
+			printf ("]\n");
+		}
+		else if (!strcmp (op, "lfree") && n == 1) { p_list_free (l); l = NULL; print_list (l); }
+		else if (!strcmp (op, "ins2") && n == 3) { p_hash_table_insert (t2, (ppointer) (uintptr_t) a, (ppointer) (uintptr_t) b); puts ("ok"); }
+		else if (!strcmp (op, "rem2") && n == 2) { p_hash_table_remove (t2, (pconstpointer) (uintptr_t) a); puts ("ok"); }
+		else if (!strcmp (op, "get2") && n == 2) {
+			ppointer r = p_hash_table_lookup (t2, (pconstpointer) (uintptr_t) a);
+			if (r == (ppointer) (-1)) puts ("nf"); else printf ("%" PRIu64 "\n", (uint64_t) (uintptr_t) r);
+		}
+		else if (!strcmp (op, "keys2") && n == 1) { PList *k = p_hash_table_keys (t2); print_list (k); p_list_free (k); }
+		else if (!strcmp (op, "vals2") && n == 1) { PList *k = p_hash_table_values (t2); print_list (k); p_list_free (k); }
+		else if (!strcmp (op, "api") && n == 1) {
+			/* every entry point with a NULL table / NULL list / NULL callback: defined, and a no-op */
+			char bad[256]; bad[0] = 0;
+			p_hash_table_insert (NULL, (ppointer) 1, (ppointer) 2);
+			if (p_hash_table_lookup (NULL, (pconstpointer) 1) != NULL) strcat (bad, " lookup(NULL)");
+			if (p_hash_table_keys (NULL) != NULL) strcat (bad, " keys(NULL)");
+			if (p_hash_table_values (NULL) != NULL) strcat (bad, " values(NULL)");
+			if (p_hash_table_lookup_by_value (NULL, (pconstpointer) 1, NULL) != NULL) strcat (bad, " lookup_by_value(NULL)");
+			if (p_hash_table_lookup_by_value (NULL, (pconstpointer) 1, value_cmp) != NULL) strcat (bad, " lookup_by_value(NULL,func)");
+			p_hash_table_remove (NULL, (pconstpointer) 1);
+			p_hash_table_free (NULL);
+			if (p_list_remove (NULL, (pconstpointer) 1) != NULL) strcat (bad, " list_remove(NULL)");
+			nseen = 0;
+			p_list_foreach (NULL, each_cb, &cookie);
+			if (nseen != 0) strcat (bad, " list_foreach(NULL)");
+			p_list_free (NULL);
+			if (p_list_last (NULL) != NULL) strcat (bad, " list_last(NULL)");
+			if (p_list_length (NULL) != 0) strcat (bad, " list_length(NULL)");
+			if (p_list_reverse (NULL) != NULL) strcat (bad, " list_reverse(NULL)");
+			printf ("null-api=%s\n", bad[0] ? bad : "ok");
+		}
+		else if (!strcmp (op, "reset") && n == 1) { p_hash_table_free (t); t = p_hash_table_new (); p_hash_table_free (t2); t2 = p_hash_table_new (); p_list_free (l); l = NULL; puts ("ok"); }
 		else puts ("bad-op");
 		fflush (stdout);
 	}
 	p_hash_table_free (t);
+	p_hash_table_free (t2);
 	p_list_free (l);
 	p_libsys_shutdown ();
 	return 0;
